@@ -8,11 +8,11 @@ from . import c12 as K
 PROP = "C05"
 COQ_EXTRA = K.COQ_EXTRA
 PARTIAL = [
-    "codecs (latin_1, cp1252, utf_8) are Python runtime: in the proofs they are Section variables with stated hypotheses "
-    "(decode (ascii_whitespace ++ encode body) = whitespace ++ body; the first byte of an encoded body starting with '<' is '<'), "
-    "discharged for latin_1 and cp1252 from the generated tables; the executable decoders of the model are compared with Python's on every run",
-    "parse_header_exact_v2 compares bodies after str.strip() (the v2 branch does not strip; DESIGN.md section 9)",
+    "codecs are Python runtime: the model's executable latin_1 / cp1252 (generated table) / strict UTF-8 decoders are proved to satisfy the hypotheses the "
+    "theorems need (Props/C05/codecs_satisfy_hypotheses.v); that they ARE Python's codecs is checked by the correspondence run (CDecode cases), not proved",
+    "parse_header_exact_v2 returns body ++ trailing whitespace and proves strip(...) = body (the v2 branch does not strip; DESIGN.md section 9)",
     "BytesIO semantics (readline / tell / seek / read) are transcribed, not proved about CPython",
+    "layouts: whitespace = space, tab, CR, LF; leading blank lines <= 7 and header within nine physical lines (the scanner's documented limits)",
 ]
 MANIFEST = {
     "engine": "Header",
@@ -24,7 +24,7 @@ MANIFEST = {
             "the codec used is the one the header declares. The model is the REPAIRED function (fixes/C05-1); the function as it was is kept and its two defects are "
             "pinned by vm_compute witnesses. Correspondence: the layout product x charsets x bodies with characters that differ between cp1252, latin-1 and UTF-8, "
             "compared by vm_compute inside coqc with the implementation; the property predicate is evaluated on the implementation, also through OFXTree.parse.",
-    "note": "Trusted: Coq kernel + vm_compute; the hand transcription Model/Header.v (validated by the correspondence run only); the codec hypotheses for utf_8; "
+    "note": "Trusted: Coq kernel + vm_compute; the hand transcription Model/Header.v incl. its executable codecs (validated by the correspondence run only); "
             "the translator. Print Assumptions: closed under the global context.",
 }
 CODECS = {"ISO-8859-1": "latin_1", "1252": "cp1252", "NONE": "utf_8"}       # the property's own table (OFX spec / Python codec names)
